@@ -247,7 +247,7 @@ fn judge_request(rep: &Reporter, prefix: &str, list: &[&'static str], entries: &
 
 pub fn check(rep: &Reporter) {
 	rep.set_rule(&format!(
-		"allow-lists = all lists of 1 or 2 entries (both orders; thorough: also every 3-entry combination) over {} patterns (those HostFilterLayer::new accepts) × Host header strings = {} schemes × {} hosts × {} userinfo forms × {} port forms, plus control/non-ASCII values × header multiplicity {{1, 0, 2}} × request-target {{origin form, absolute same authority, absolute other authority, absolute with explicit default port}}. Oracle: independent RFC-3986 authority split + label/port matcher written from the statement; a case is non-trivial when the layer was actually invoked (header constructible); distinct by (list, header, multiplicity, target).",
+		"allow-lists = all lists of 1 or 2 entries (both orders; thorough: also every 3-entry combination) over {} patterns (those HostFilterLayer::new accepts) × Host header strings = {} schemes × {} hosts × {} userinfo forms × {} port forms, plus control/non-ASCII values × header multiplicity {{1, 0, 2}} × request-target {{origin form, absolute same authority, absolute other authority, absolute with explicit default port}}. plus an SRV-TCP leg: the layer as HTTP middleware of Server::start, single-entry lists × scheme-less Host values × request-target forms as raw HTTP/1.1 over loopback. Oracle: independent RFC-3986 authority split + label/port matcher written from the statement; a case is non-trivial when the layer was actually invoked (header constructible); distinct by (list, header, multiplicity, target).",
 		PATTERNS.len(),
 		SCHEMES.len(),
 		HOSTS.len(),
@@ -354,4 +354,91 @@ pub fn check(rep: &Reporter) {
 			}
 		}
 	});
+
+	// ---- SRV-TCP leg: the layer in its deployed position (HTTP middleware of a real `Server`), requests written as raw
+	//      HTTP/1.1 over loopback so that hyper supplies the Host header and the request-target. Single-entry lists ×
+	//      scheme-less Host values × request-target forms; the RPC call in the body tells whether the service was reached.
+	{
+		let singles: Vec<usize> = (0..lists.len()).filter(|li| lists[*li].len() == 1 && built[*li].is_some()).collect();
+		let hdrs: Vec<&Vec<u8>> = headers.iter().filter(|h| !h.windows(3).any(|w| w == b"://") && !h.iter().any(|b| *b == b'\r' || *b == b'\n' || *b == 0)).collect();
+		let uris: Vec<UriKind> = if rep.tier.thorough() { URIS.to_vec() } else { vec![UriKind::Origin, UriKind::AbsOther] };
+		rep.extra("tcp_leg_requests", json!(singles.len() * hdrs.len() * uris.len()));
+		const BODY: &str = r#"{"jsonrpc":"2.0","id":1,"method":"add","params":[1,2]}"#;
+		par_for(rep, singles.len() * uris.len(), 1, crate::srv::rt, |w, rt, local| {
+			use tokio::io::AsyncWriteExt;
+			let li = singles[w / uris.len()];
+			let uk = uris[w % uris.len()];
+			let Some((_, entries)) = &built[li] else { return };
+			let log: crate::srv::InvLog = Default::default();
+			let _e = rt.enter();
+			let listener = std::net::TcpListener::bind("127.0.0.1:0").expect("bind loopback");
+			listener.set_nonblocking(true).unwrap();
+			let addr = listener.local_addr().unwrap();
+			let layer = HostFilterLayer::new(lists[li].iter().copied()).expect("accepted before");
+			let server = jsonrpsee_server::Server::builder().set_http_middleware(tower::ServiceBuilder::new().layer(layer)).build_from_tcp(listener).expect("server");
+			let handle = server.start(crate::srv::std_module(log.clone()));
+			let mut conn: Option<tokio::net::TcpStream> = None;
+			for hv in &hdrs {
+				let hstr = std::str::from_utf8(hv).ok();
+				let uri = match uk {
+					UriKind::Origin => "/".to_string(),
+					UriKind::AbsSame => match hstr.and_then(ref_parse) {
+						Some(a) if a.plain && !a.host.is_empty() => {
+							let p = match a.port {
+								RPort::Default => "".to_string(),
+								RPort::Any => continue,
+								RPort::Fixed(n) => format!(":{n}"),
+							};
+							format!("http://{}{}/", a.host, p)
+						}
+						_ => continue,
+					},
+					UriKind::AbsOther => "http://example.com:8080/rpc".to_string(),
+					UriKind::AbsDefaultPort => "https://example.com:443/".to_string(),
+				};
+				let Ok(uri_p) = uri.parse::<http::Uri>() else { continue };
+				let mut req: Vec<u8> = format!("POST {uri} HTTP/1.1\r\nhost: ").into_bytes();
+				req.extend_from_slice(hv);
+				req.extend_from_slice(format!("\r\ncontent-type: application/json\r\ncontent-length: {}\r\n\r\n{BODY}", BODY.len()).as_bytes());
+				log.lock().unwrap().clear();
+				// keep-alive connection, re-opened whenever the server closed it (hyper does after a 400 of its own)
+				let mut resp = None;
+				for _attempt in 0..3 {
+					if conn.is_none() {
+						conn = rt.block_on(tokio::net::TcpStream::connect(addr)).ok();
+					}
+					let Some(io) = conn.as_mut() else { continue };
+					let r = rt.block_on(async {
+						io.write_all(&req).await.ok()?;
+						super::c01::read_response(io).await
+					});
+					match r {
+						Some(x) => {
+							resp = Some(x);
+							break;
+						}
+						None => conn = None,
+					}
+				}
+				let Some((status, _body)) = resp else {
+					rep.machinery_error(format!("SRV-TCP leg: no response for Host {:?}", String::from_utf8_lossy(hv)));
+					continue;
+				};
+				if status == 400 || status == 403 {
+					// a refusal may close the connection; start the next request on a fresh one
+					conn = None;
+				}
+				let called = log.lock().unwrap().len();
+				// what the server sees: optional whitespace around the value is not part of it (RFC 9110 §5.5)
+				let seen: Vec<u8> = {
+					let t = String::from_utf8_lossy(hv).trim_matches([' ', '\t']).to_string();
+					if std::str::from_utf8(hv).is_ok() { t.into_bytes() } else { hv.to_vec() }
+				};
+				let (class, _case) = judge_request(rep, "tcp:", &lists[li], entries, &seen, 1, uk, &uri, &uri_p, status, called);
+				local.case_unique(&format!("tcp:{class}:{status}"));
+			}
+			let _ = handle.stop();
+			let _ = rt.block_on(async { tokio::time::timeout(std::time::Duration::from_secs(10), handle.stopped()).await });
+		});
+	}
 }
